@@ -1,26 +1,146 @@
-import os
+# C10 formatting side: to_chars / strings::from_integer / to_string / round trip
+import json, os
 PROPERTIES = ['C10', 'C02']
-BOUNDS = {'quick': 'tbd', 'thorough': 'tbd'}
-ASSUMPTIONS = []
-US = {'ll_ctlz_32.0': 34, 'll_ctlz_64.0': 66}
+BOUNDS = {
+    'quick': ('8-bit types (unsigned char, signed char): every value x every base 2..36 symbolic, buffer length 0..max text+2 enumerated (to_chars), 0..5 and 9..10 (from_integer); '
+              '16-bit types: every value, base enumerated {2,10,16,36}, buffer lengths around the text-length boundaries; '
+              '32/64-bit types (unsigned, int, unsigned long, long): base enumerated {2,10,16,36}, value symbolic in windows ANCHOR+[-2^15,2^15) around 0, the type limits and the largest power of the base; '
+              'to_string<CAP>: int/unsigned/long/unsigned long, CAP around the text-length boundaries, same windows; round trip: 8-bit all values x all bases, wider types per base/window'),
+    'thorough': ('adds char, long long, unsigned long long; 16-bit: every value x every base symbolic, all buffer lengths 0..max text+2; '
+                 '32-bit: full value range per base {2,8,10,16,36} against the reference text (z3), every power of the base as window anchor against std::to_chars; '
+                 '64-bit: windows around 0, limits, limits/base and every power of the base {2,8,10,16,36}; 64-bit full range only for bases 2 and 16'),
+}
+ASSUMPTIONS = [
+    'C10/to_chars: base in 2..36 (documented precondition); [first,last) is a valid range of exactly LEN bytes (own object, so any access outside is reported)',
+    'C10/to_chars: "fits" is decided by the length of the std::to_chars text (q_oracle_fit proves std::to_chars succeeds on a LEN-byte buffer iff its text has <= LEN characters)',
+    'C10/to_chars: on success the bytes in [ptr,last) must keep their values (libstdc++ behaviour); on value_too_large the buffer contents are unspecified and not compared',
+    'C10/to_string: texts longer than Capacity violate the precondition of to_string<Capacity> (contract check, C05) and are assumed away',
+    'C10/wide types: where REFORACLE is set the oracle is the reference quotient/remainder loop ref_text, proved equal to std::to_chars by q_oracle_model (8/16-bit: all values and bases; wide types: inside the windows) and compared natively by model_check.cpp',
+]
+US = {'ll_ctlz_8.0': 10, 'll_ctlz_16.0': 18, 'll_ctlz_32.0': 34, 'll_ctlz_64.0': 66, 'll_ctpop_32.0': 34, 'll_ctpop_64.0': 66, 'll_undef_bytes.0': 80, 'll_memcpy.0': 80, 'll_memset.0': 80, 'll_memmove.0': 80, 'll_memmove.1': 80}
 TYPES = {'unsigned char': (8, 0), 'signed char': (8, 1), 'char': (8, 1), 'unsigned short': (16, 0), 'short': (16, 1), 'unsigned': (32, 0), 'int': (32, 1),
          'unsigned long': (64, 0), 'long': (64, 1), 'unsigned long long': (64, 0), 'long long': (64, 1)}
+def open_ids():
+    # known-finding ids currently listed open (known_findings.json + staged harness/*/kf.json)
+    root = os.path.dirname(os.path.dirname(os.path.dirname(os.path.abspath(__file__))))
+    ids = set()
+    p = os.path.join(root, 'known_findings.json')
+    if os.path.exists(p):
+        ids |= {k['id'] for k in json.load(open(p)).get('open', [])}
+    for fam in os.listdir(os.path.join(root, 'harness')):
+        kp = os.path.join(root, 'harness', fam, 'kf.json')
+        if os.path.exists(kp):
+            ids |= {k['id'] for k in json.load(open(kp))}
+    return ids
 def ndig(v, b):
     n = 0
     while v: v //= b; n += 1
     return max(n, 1)
+def maxtext(t, b):          # longest text of type t in base b (sign included)
+    bits, s = TYPES[t]
+    return ndig(1 << (bits - 1), b) + 1 if s else ndig((1 << bits) - 1, b)
+def anchors(t, b, thorough):
+    """window anchors as bit patterns: 0, the limits, the largest power of the base (and its negative); thorough adds
+    limits/base and more powers of the base"""
+    bits, s = TYPES[t]
+    mx = (1 << (bits - s)) - 1
+    neg = lambda x: (1 << bits) - x
+    p, pw = 1, []
+    while p * b <= mx: p *= b; pw.append(p)
+    out = {0, mx, 1 << (bits - 1), pw[-1]}
+    if s: out.add(neg(pw[-1]))
+    if thorough:
+        step = 1 if len(pw) <= 10 else (2 if len(pw) <= 20 else 8)
+        out |= set(pw[::step]) | {mx // b}
+        if s: out |= {neg(pw[0]), neg(pw[len(pw) // 2]), neg((1 << (bits - 1)) // b)}
+    return sorted(out)
+def textlen(t, a, b):       # text length of the value whose bit pattern is a
+    bits, s = TYPES[t]
+    if s and a >= (1 << (bits - 1)): return ndig((1 << bits) - a, b) + 1
+    return ndig(a, b)
+def window_lens(t, a, b):  # text lengths occurring in the window around anchor a
+    bits, s = TYPES[t]
+    m = (1 << bits) - 1
+    return {textlen(t, (a - 32768) & m, b), textlen(t, a, b), textlen(t, (a + 32767) & m, b)}
+def q(entry, cfg, unwind, ub, solver='minisat', budget=120):
+    return dict(entry=entry, cfg=cfg, unwind=unwind, unwindset=US, budget=budget, ub=ub, nofunc=ub, solver=solver)
 def queries(tier, prop='C10'):
     ub = prop == 'C02'
+    thorough = tier == 'thorough' and not ub      # the C02 (UB build) run rides on the quick grid
     out = []
-    sv = os.environ.get('SV', 'minisat')
-    for t in os.environ.get('TYS', 'int').split(','):
+    # ---- 8-bit: value and base symbolic, every buffer length
+    for t in ['unsigned char', 'signed char'] + (['char'] if thorough else []):
         bits, s = TYPES[t]
-        for b in [int(x) for x in os.environ.get('BASES', '10').split(',')]:
-            for ln in [int(x) for x in os.environ.get('LENS', '5').split(',')]:
-                mx = (1 << (bits - s)) - 1
-                cfg = {'TY': t, 'LEN': ln, 'WTL': int(ln < ndig(mx, b or 2)), 'WTLN': int(ln <= ndig(mx, b or 2))}
-                if b: cfg['BASE'] = b
-                if os.environ.get('REF'): cfg['REFORACLE'] = 1; cfg['NOWIT'] = 1; cfg['WTL'] = 0; cfg['WTLN'] = 0
-                for e in os.environ.get('ENTS', 'q_to_chars').split(','):
-                    out.append(dict(entry=e, cfg=cfg, unwind=max(ln + 2, (ndig((1 << bits) - 1, b) + 3 if b else bits + 4)), unwindset=US, budget=300, ub=ub, nofunc=ub, solver=sv.split('+')))
+        mt = maxtext(t, 2)
+        for ln in range(0, mt + 3):
+            cfg = {'TY': t, 'LEN': ln, 'WTL': int(ln < bits - s), 'WTLN': int(ln <= bits - s)}
+            out.append(q('q_to_chars', cfg, bits + 4, ub))
+            if ln <= 5 or ln >= mt or thorough: out.append(q('q_from_integer', cfg, bits + 4, ub))
+            if ln in (0, 1, 3, 4):
+                out.append(q('q_to_chars_def', cfg, bits + 4, ub))
+                if not ub: out.append(q('q_oracle_fit', cfg, bits + 4, ub))
+            if ln == 1:
+                out.append(q('q_roundtrip', cfg, bits + 4, ub))
+                if not ub: out.append(q('q_oracle_model', cfg, bits + 4, ub))
+    # ---- 16-bit: every value; base enumerated (quick) / symbolic (thorough)
+    for t in ['unsigned short', 'short']:
+        bits, s = TYPES[t]
+        if thorough:
+            for ln in (0, 1, 2, 5, 6, 15, 16, 17, 19):
+                cfg = {'TY': t, 'LEN': ln, 'WTL': int(ln < bits - s), 'WTLN': int(ln <= bits - s)}
+                out.append(q('q_to_chars', cfg, bits + 4, ub, 'kissat', 900))
+                if ln in (1, 6, 17): out.append(q('q_from_integer', cfg, bits + 4, ub, 'kissat', 900))
+                if ln == 1:
+                    out.append(q('q_roundtrip', cfg, bits + 4, ub, 'kissat', 900))
+                    out.append(q('q_oracle_model', cfg, bits + 4, ub, 'kissat', 900))
+        for b in (2, 10, 16, 36):
+            nd = ndig((1 << (bits - s)) - 1, b)
+            mt = maxtext(t, b)
+            for ln in sorted({0, 1, nd - 1, nd, mt + 1}):
+                cfg = {'TY': t, 'LEN': ln, 'BASE': b, 'WTL': int(ln < nd), 'WTLN': int(ln <= nd)}
+                out.append(q('q_to_chars', cfg, max(nd + 3, ln + 2), ub))
+                if ln in (1, nd, mt + 1): out.append(q('q_from_integer', cfg, max(nd + 3, ln + 2), ub))
+                if ln == mt + 1:
+                    out.append(q('q_roundtrip', cfg, max(nd + 3, ln + 2), ub))
+                    if not ub: out.append(q('q_oracle_model', cfg, max(nd + 3, ln + 2), ub))
+                    if b == 10: out.append(q('q_to_chars_def', cfg, max(nd + 3, ln + 2), ub))
+    # ---- 32/64-bit: base enumerated; value in windows around the anchors; thorough adds full-range queries
+    if thorough:
+        wide = [(t, b) for t in ('unsigned', 'int', 'unsigned long', 'long', 'unsigned long long', 'long long') for b in (2, 8, 10, 16, 36)]
+    else:
+        wide = [(t, b) for t in ('unsigned', 'int', 'unsigned long', 'long') for b in (10, 16)] + [(t, b) for t in ('unsigned', 'long') for b in (2, 36)]
+    for t, b in wide:
+        bits, s = TYPES[t]
+        nd = ndig((1 << (bits - s)) - 1, b)
+        mt = maxtext(t, b)
+        for a in anchors(t, b, thorough):
+            na = textlen(t, a, b)
+            lens = [0, 1, 2] if a == 0 else [na, na + 1]
+            if window_lens(t, a, b) == {na} and 'C10_to_chars_exact_fit_rejected' in open_ids():
+                lens = [na - 1, na + 1]      # LEN == na: every value of the window lies in the open exact-fit region
+            for ln in lens:
+                cfg = {'TY': t, 'LEN': ln, 'BASE': b, 'ANCHOR': '%dULL' % a}
+                uw = max(nd + 3, ln + 2)
+                out.append(q('q_to_chars', cfg, uw, ub))
+                if ln in (2, na + 1):
+                    out.append(q('q_from_integer', cfg, uw, ub))
+                    out.append(q('q_roundtrip', cfg, uw, ub))
+                    if b == 10: out.append(q('q_to_chars_def', cfg, uw, ub))
+                    if not ub and b in (10, 36): out.append(q('q_oracle_model', dict(cfg), uw, ub))
+        if thorough and (bits == 32 or b in (2, 16)):
+            # full value range: reference text as oracle, exported VC decided by z3 (word level), SAT as fallback
+            for ln in sorted({1, nd, mt + 1}):
+                cfg = {'TY': t, 'LEN': ln, 'BASE': b, 'REFORACLE': 1, 'NOWIT': 1}
+                out.append(q('q_to_chars', cfg, max(nd + 3, ln + 2), ub, ['z3', 'kissat'], 900))
+            if b in (2, 8, 16): out.append(q('q_oracle_model', {'TY': t, 'LEN': mt + 1, 'BASE': b, 'NOWIT': 1}, nd + 4, ub, 'kissat', 900))
+    # ---- to_string<CAP>
+    for t in ['int', 'unsigned', 'long', 'unsigned long'] + (['long long', 'unsigned long long'] if thorough else []):
+        bits, s = TYPES[t]
+        for a in anchors(t, 10, thorough):
+            na = textlen(t, a, 10)
+            for cap in ([1, 2, 3] if a == 0 else [na, na + 1]):
+                # skip capacities where every text of the window (that fits) lies in the open full-capacity region
+                if 'C10_to_string_full_capacity' in open_ids() and (cap == 1 or (cap == na and min(window_lens(t, a, 10)) == na)): continue
+                cfg = {'TY': t, 'CAP': cap, 'TOSTRING': 1, 'LEN': 1, 'ANCHOR': '%dULL' % a}
+                out.append(q('q_to_string', cfg, max(cap, 21) + 3, ub))
     return out
